@@ -31,6 +31,7 @@ import QV.Model.Frame
 import QV.Lemmas.Frame
 
 namespace QV.Props
+namespace C14
 open QV.Frame
 
 variable {P O : Type}
@@ -314,4 +315,5 @@ example : fitDraws (resolveArch .pos 3 none none) ⟨10, 3, 1, 4, some 3, 2, non
 
 end examples
 
+end C14
 end QV.Props
